@@ -12,7 +12,7 @@ democmd=$(python3 -c "import json;print(json.load(open('$OUT/meta.json')).get('d
 echo "demo_cmd: $democmd"
 rundemo() { (cd $OUT/demo 2>/dev/null && if [ -x ./run.sh ]; then timeout 1800 ./run.sh $WT; elif ls *_test.go >/dev/null 2>&1 && [ ! -f main.go ]; then echo "test-style demo: see meta"; false; else timeout 1200 go run . ; fi) > $OUT/demo_$1.log 2>&1; echo $?; }
 r0=$(rundemo unchanged)
-git -C $WT apply $OUT/patch.diff || { echo "PATCH DOES NOT APPLY"; exit 2; }
+git -C $WT apply -3 $OUT/patch.diff || { echo "PATCH DOES NOT APPLY"; exit 2; }
 ( cd $WT/code/go/0chain.net && go test -vet=off -count=1 $(cat /verif/tools/baseline_pkgs.txt) 2>&1 | grep -v "^ok\|no test files" | head -20 ) > $OUT/baseline_confirm.log 2>&1
 bl=$(grep -c "FAIL" $OUT/baseline_confirm.log)
 mf=$(/tmp/seedkit/mkmod.sh $WT)
